@@ -90,6 +90,16 @@ TABLES = {
 TABLE_ORDER = {"quick": ["T1", "T2", "T0", "T3", "T3f", "T3r", "T7", "T4"], "thorough": ["T1", "T2", "T0", "T3", "T3f", "T3r", "T7", "T4", "T5"]}
 
 
+# files for the ListOfDicts readers only (a list of dicts holds whatever the file holds, key by key):
+#  - JSON values of one key that are EQUAL across types (10 and 10.0, true and 1, 0 and 0.0): each is converted on its own
+#  - a CSV header that names one column twice (an item keeps the LAST of the two, restricted or not)
+LOD_ONLY_FILES = {
+    "json": [{"fmt": "json", "cols": [["price", "obj", [10, 10.0, True, 1, 0, 0.0]], ["id", "int", [1, 2, 3, 4, 5, 6]]], "ragged": False, "encoding": "utf-8"}],
+    "csv": [{"fmt": "csv", "cols": [["id", "int", [1, 2]], ["value", "str", ["x", "y"]], ["name", "str", ["p", "q"]], ["value", "str", ["u", "v"]]],
+             "sep": ",", "header": True, "encoding": "utf-8"}],
+}
+
+
 def files_for(fmt, tier):
     """File specs of one format, smallest first."""
     out = []
@@ -385,7 +395,7 @@ def lod_cast_menu(items, key):
     if not vals:
         return ["str", "float"]
     menu = []
-    for t in ("float", "int", "str", "bool"):
+    for t in ("float", "str", "int", "bool"):
         try:
             [TYPES[t](v) for v in vals]
             menu.append(t)
@@ -415,7 +425,7 @@ def maps(menus, sel, tier):
     """menus: name -> list of casts. none, every single, every pair (names of the map inside sel)."""
     names = [n for n in menus if sel is None or n in sel]
     yield None
-    nsingle = 2 if tier == "quick" else 4
+    nsingle = 3 if tier == "quick" else 4
     for n in names:
         for t in menus[n][:nsingle]:
             yield {n: t}
@@ -579,7 +589,7 @@ def file_names(f):
         # the documented generated names a, b, c, ... - computed here, never taken from the library under test
         import string
         names = list(string.ascii_lowercase[:len(names)])
-    return names
+    return list(dict.fromkeys(names))   # (a name repeated in the header is one key of an item)
 
 
 def _selection_domain(f, tier):
@@ -736,7 +746,7 @@ def shards(tier):
     small, big = [], []
     small.append({"part": "signature", "tier": tier})
     for reader, (fmt, rk, mk, fam) in READERS.items():
-        for f in files_for(fmt, tier):
+        for f in files_for(fmt, tier) + (LOD_ONLY_FILES.get(fmt, []) if fam == "lod" else []):
             n = len(f["cols"])
             (small if n <= 3 else big).append({"part": "restrict", "reader": reader, "file": f, "tier": tier, "ncol": n})
     for alias, (reader, fmt) in ALIASES.items():
